@@ -99,7 +99,7 @@ func withOps(a AuthCase, ops ...AuthOp) AuthCase {
 }
 
 func baseCase(g *scenGen, nblocks int) AuthCase {
-	return AuthCase{InMemory: g.r.Chance(1, 2), MaxFacts: 1000, MaxIter: 100, Ctor: "for", Tokens: [][]Block{g.token(nblocks)}, Ops: g.authContent()}
+	return AuthCase{InMemory: g.r.Chance(1, 2), Bulk: g.r.Chance(1, 3), MaxFacts: 1000, MaxIter: 100, Ctor: "for", Tokens: [][]Block{g.token(nblocks)}, Ops: g.authContent()}
 }
 
 // groundings of a query body: facts that would satisfy it (variables replaced by constants)
